@@ -314,7 +314,7 @@ func (l *Loaded) Explore(spec *EntrySpec, activeKnown map[string]bool, workers i
 		e.over[k] = hf
 	}
 	e.res = &EntryResult{Entry: spec.Name, Outcomes: map[string]int{}, Reach: map[string]int{}, ViolCount: map[string]int{}, Known: map[string]string{}}
-	e.queue = [][]Dec{nil}
+	e.queue = [][]Dec{debugDec}
 	maxPaths := spec.MaxPaths
 	if maxPaths == 0 {
 		maxPaths = 200000
